@@ -1,6 +1,8 @@
 // C18 conformance harness (cases from spec/math/FSAlgoGen.tla): every fsalgo algorithm for N = 0..64.
 #include <array>
+#include <list>
 #include <utility>
+#include <type_traits>
 #include "vp_io.hxx"
 #include "TFEL/FSAlgorithm/FSAlgorithm.hxx"
 using vp::Json;
@@ -11,6 +13,21 @@ static Json arr(const V& v, const size_t n) {
   for (size_t i = 0; i < n; ++i) a.push(Json(v[i]));
   return a;
 }
+// position of the iterator returned by an algorithm relative to `b` (-1: the algorithm returns nothing, -2: something else)
+template <typename F, typename It>
+static long long returned(F&& f, It b) {
+  if constexpr (std::is_void_v<decltype(f())>) {
+    f();
+    return -1;
+  } else {
+    auto x = f();
+    if constexpr (std::is_same_v<std::decay_t<decltype(x)>, It>) {
+      return static_cast<long long>(std::distance(b, x));
+    } else {
+      return -2;
+    }
+  }
+}
 template <unsigned N>
 static void run(Json& r, const V& s, const V& t) {
   using namespace tfel::fsalgo;
@@ -18,7 +35,19 @@ static void run(Json& r, const V& s, const V& t) {
   bool guard = true;
   auto fresh = [&] { return V(N + 2, SENT); };
   auto chk = [&](const V& v) { guard = guard && v[N] == SENT && v[N + 1] == SENT; };
-  { auto o = fresh(); copy<N>::exe(s.begin(), o.begin()); chk(o); r.set("copy", arr(o, N)); }
+  { auto o = fresh(); const auto k = returned([&] { return copy<N>::exe(s.begin(), o.begin()); }, o.begin()); chk(o); r.set("copy", arr(o, N)).set("copyret", Json(k)); }
+  { // the same through pointers and through iterators that are not random access
+    auto o = fresh(); const long long* ps = s.data(); long long* po = o.data();
+    const auto k = returned([&] { return copy<N>::exe(ps, po); }, po); chk(o); r.set("copyp", arr(o, N)).set("copypret", Json(k));
+    std::list<long long> ls(s.begin(), s.end()), lo(N + 2, SENT);
+    const auto k2 = returned([&] { return copy<N>::exe(ls.begin(), lo.begin()); }, lo.begin());
+    V back(lo.begin(), lo.end()); chk(back); r.set("copyl", arr(back, N)).set("copylret", Json(k2)); }
+  { auto o = fresh(); r.set("fillret", Json(returned([&] { return fill<N>::exe(o.begin(), 9LL); }, o.begin())));
+    auto o2 = fresh(); r.set("tr1ret", Json(returned([&] { return transform<N>::exe(s.begin(), o2.begin(), [](const long long x) { return x; }); }, o2.begin())));
+    auto o3 = fresh(); r.set("tr2ret", Json(returned([&] { return transform<N>::exe(s.begin(), t.begin(), o3.begin(), [](const long long a, const long long b) { return a + b; }); }, o3.begin())));
+    auto o4 = fresh(); long long c4 = 0; r.set("genret", Json(returned([&] { return generate<N>::exe(o4.begin(), [&c4] { return c4++; }); }, o4.begin())));
+    auto o5 = fresh(); r.set("iotaret", Json(returned([&] { return iota<N>::exe(o5.begin(), 4LL); }, o5.begin())));
+    V a = s, b = t; a.push_back(SENT); b.push_back(SENT); r.set("swapret", Json(returned([&] { return swap_ranges<N>::exe(a.begin(), b.begin()); }, b.begin()))); }
   { auto o = fresh(); fill<N>::exe(o.begin(), 9LL); chk(o); r.set("fill", arr(o, N)); }
   { auto o = fresh(); transform<N>::exe(s.begin(), o.begin(), [](const long long x) { return 2 * x + 1; }); chk(o); r.set("tr1", arr(o, N)); }
   { auto o = fresh(); transform<N>::exe(s.begin(), t.begin(), o.begin(), [](const long long a, const long long b) { return a - 2 * b; }); chk(o); r.set("tr2", arr(o, N)); }
